@@ -217,19 +217,8 @@ attribute [local instance] lexOrd
 theorem lex_pair {α β} [Ord α] [Ord β] (a c : α) (b d : β) :
     compare (a, b) (c, d) = (compare a c).then (compare b d) := rfl
 
-abbrev CompKey := Nat × List Char × Nat
-/-- order embedding of one later component: leading-zero components sort strictly below the others -/
-def compKey (a : List Char) : CompKey :=
-  if a.head? = some '0' then (0, rstrip0 a, 0) else (1, [], natOfDigits a)
-
-abbrev Key := Nat × List CompKey × Nat × List (Int × Nat) × Nat
-def letterKey : Option Char → Nat
-  | none => 0
-  | some c => c.toNat + 1
-def sufKey (x : Suf × List Char) : Int × Nat := (rank x.1, natOfDigits x.2)
-def key (v : Ver) (r : Rev) : Key :=
-  (natOfDigits (v.comps.headD []), v.comps.tail.map compKey, letterKey v.letter,
-   v.sufs.map sufKey ++ [(0, 0)], revNat r)
+-- (the key embedding `CompKey`, `compKey`, `Key`, `letterKey`, `sufKey`, `key` is defined in Spec/C01.lean so that
+-- executable specs of other properties can use it without importing proofs)
 
 theorem rstrip0_zero_lt (t u : List Char) (c : Char) (hc : c.isDigit = true) (hne : c ≠ '0') :
     compare (rstrip0 ('0' :: t)) (rstrip0 (c :: u)) = .lt := by
